@@ -46,6 +46,42 @@ CHECKS = {
          "Part A: every sequence up to depth 4 (quick) / 5 (thorough) of AddTx/AddTxs/GetTxs/DelTxs over 5 plain transactions and 2 overlapping boxes with pool capacity 2 (growth and gc reached), expirations and monotone selection times, on the real pool next to a reference model that is agnostic only where the statement is open (box deletion vs. sub-transactions pooled on their own). Part B: 8 scenarios of 2-3 threads x 1-2 operations on overlapping transactions, every interleaving with <= 2 (thorough 3) preemptions; scheduling points at the pool mutex and at every read/write of txs, hashIndexMap and cap (generated source overlay); each complete schedule: call/return history linearizable w.r.t. the model, no two threads co-enabled on conflicting accesses, no deadlock, no panic.",
          "Order of GetTxs results not asserted; AddTx refusing is never a violation; the engine-level fork-switch clause (pool vs. old/new fork transactions) is exercised in C04's miner scenario only.",
          "DESIGN.md section 4 C18"),
+
+ "C06": ("exploration",
+         "bounded exhaustive enumeration of signature lists, signer configurations, field tamperings and wrappings on the real miner (MineBlock) and validator (Process / InsertBlock) paths; reference authorisation computed from the provenance of every signature, never from the repo's hash / recover code",
+         "Families F1 (sender configuration {plain, multisig 100, 50/50, 60/30/10} x tx type x every sender signature list up to length 3 over the token alphabet {sigA, sigB, sigC, re-encoded sigA, second-nonce sigA, outsider, sigA over a tampered copy, 64/66-byte junk} x gas-payer arrangement x bare/boxed), F2 (every gas-payer signature list), F3 (every signed field changed after signing, for the default, reimbursement and gas-payer signing hashes, with the original and with renewed payer signatures), F4 (signature made with the other signing hash), F5 (100 weight-1 signers, long lists). Every case runs on MineBlock and on Process; the block goes to a whole validator node for every packaged case and one case of every refusal class. Oracle, one direction as the statement: effective (packaged, applied, or a change log names an account of the case) => authorised by the reference; the canonical correctly signed form of every configuration must be effective (non-vacuity).",
+         "Single-deputy chain; weights from a fixed set of configurations (not all 1..100); a box inside a box is not producible; refusal of an authorised but unusually ordered list is not a violation.",
+         "DESIGN.md section 4 C06"),
+ "C09": ("model_checking",
+         "explicit-state BFS over NewBlock / Read / Stabilise histories on a real reopened store.ChainDatabase against a plain-map reference model of the block tree",
+         "Every history up to depth 3-5 (thorough 4-6) in 5 (thorough 7) scenarios over 7 addresses whose trie keys share 39 / 20 / 2 / 0 nibbles (so that node splits, four-child nodes and read-through inserts into shared nodes occur): NewBlock(parent, write set) on any live block (forks, equal-height siblings, cousins), Read(view, address) through AccountTrieDB.Get (mutates shared nodes), Stabilise(any unconfirmed block). After every history: for every block ever created IsExistByHash / GetBlockByHash / GetUnConfirmByHeight / IterateUnConfirms / GetBlockByHeight agree with the model (exactly the non-descendants disappear, SetStableBlock returns the model's dropped set); GetAccount equals the model's view of the stable block; for every live view and address the value equals the nearest ancestor-or-self write, else the stable value, first without mutating and then through the real Get.",
+         "Each account is Put once per block and before the block has children (what Manager.Save does); reads between two structural events are treated as commuting; databases are opened on a persisted stable block (restart) so that read-through really happens.",
+         "DESIGN.md section 4 C09"),
+ "C11": ("model_checking",
+         "explicit-state BFS over histories of blocks (ordered transaction lists built by the real assembler, validated by a real node) with the statement's tally equation recomputed from the account state as invariant",
+         "Every history of <= 2 blocks of <= 2 transactions (thorough: deeper / 3 per block) over an alphabet of transfers crossing the 200-LEMO vote step in both directions, contract value flow to the voter, votes and re-votes by two voters for three candidates (one is the genesis deputy with deposit 0), register with deposit crossing the 100-LEMO step, top-up, unregister. After every accepted block, over all accounts the history ever touched: votes(c) == floor(deposit/100 LEMO) + sum over current voters of floor(balance/200 LEMO) for every registered candidate, 0 for unregistered ones, never negative; the assembler must be able to produce and encode the block and the validator must accept it.",
+         "Heights far below term / interim boundaries (refunds at once); single-deputy chain; amounts from a fixed set.",
+         "DESIGN.md section 4 C11"),
+ "C12": ("model_checking",
+         "explicit-state BFS over histories of asset transactions (one factory-built block each, validated by a real single-deputy node) with supply / equity conservation invariants and per-step transition rules from the statement",
+         "Four scenarios after a common prefix (create token / non-fungible / common / non-replenishable common assets, deploy an accepting and a reverting contract, issue): per asset category the full product {issuer, holder, stranger} x {other holder, self, accepting contract, reverting contract, burn address, issuer} x amounts {1, eq, 0, eq+1, -1, -eq, 2^256} plus all issue / replenish / freeze variants, and a mixed scenario using asset ids across assets; depth 2-3 below the prefix. After every event: total supply == sum of holders' equity per divisible asset (grouped by the record's own asset code); supply changes only by the issuer's issue / replenish (by the amount) and a holder's burn; a transfer never lowers anybody's equity but the sender's, never raises the sender's, conserves, touches only the id it names, moves nothing while frozen; nothing negative; a non-issuer mints nothing.",
+         "Single-deputy chain (every accepted block stable at once, which asset transactions need); holders are the 7 accounts of the alphabet; LEMO balances are not part of the state key.",
+         "DESIGN.md section 4 C12"),
+ "C14": ("exploration",
+         "bounded exhaustive enumeration of byte strings into every decoder (decode(b)=v => encode(v)=b, never a panic) and of per-field mini-domain products of every consensus type through its encoder (round trip, same hash, same signers, byte-identical re-encoding), plus address text forms",
+         "Decoder side: all byte strings of length <= 2 (thorough 3) over 256 symbols and longer ones over the 16 RLP boundary bytes, long-form header forms, short tails behind valid prefixes, into 35 primitive targets and every consensus type's decoder (18.9 M evaluations quick). Encoder side: Header, Block, Transaction (incl. box payloads and the JSON form), the 19 change-log types with every old/new/extra shape, AccountData, Asset, AssetEquity, DeputyNode, Candidate, network messages: full product of per-field mini-domains where <= 10^6, else all 1- and 2-field deviations. Address text: 6586 addresses x case variants, and every single-character substitution / transposition (counted; the xor checksum lets some through, which the statement does not forbid).",
+         "Values bounded by the stated mini-domains; a non-canonical input accepted by a custom decoder of a consensus type is information, not a violation (nothing hashes received bytes); the documented dual nil encoding (80 / c0) of rlp:\"nil\" optional pointers is a note; a transaction message that the real VerifyTxBody refuses (invalid UTF-8) is outside the JSON round-trip clause.",
+         "DESIGN.md section 4 C14"),
+ "C16": ("exploration",
+         "bounded exhaustive program enumeration (macro programs and raw byte programs) on the real EVM over the real account.Manager with whole-state before/after comparison around every failing frame",
+         "Quick: every program of <= 1 macro over the 273-macro alphabet and of 2 macros over a 43-macro sub-alphabet for contract A, each x the fixed behaviours of B and C its call graph reaches, x entries EVM.Call / StaticCall / Create with enumerated gas, value, call data and three pre-states; all raw byte programs of length <= 2; the nine precompiles on boundary inputs of length 0..200. Thorough: 2 macros over the full alphabet, 3 over the sub-alphabet, 4 over a 16-macro mini alphabet, A<=2 x every B<=2, raw programs of length 3 (32 bytes) and 4 (16 bytes); 16.5 M cases. Oracles: no panic; gas left <= gas supplied and never growing inside a frame; determinism (identical result, gas, raw state dump and journal on an identically rebuilt manager); after every failing top-level entry and every nested CALL / CALLCODE / DELEGATECALL / STATICCALL / CREATE that pushes 0 (depth <= 4) every loaded account reads as before and the journal is unchanged but for the platform's one failure event; read-only frames change nothing; never more than 1024 frames below the transaction frame (recursion programs reach exactly that).",
+         "Runs with 2^63-1 gas exceeding the interpreter step budget are cancelled and counted, not evaluated; no-op change logs of zero-value transfers inside read-only calls (removed by MergeChangeLogs) are not state.",
+         "DESIGN.md section 4 C16"),
+ "C17": ("model_checking",
+         "explicit-state BFS over update / delete / get / hash / commit / reopen histories on the real trie over TrieDatabase over BeansDB against a map model (fresh-trie root as order-independence oracle, harness-assembled proofs through VerifyProof), plus exhaustive enumeration of Merkle leaf lists, positions and alterations",
+         "Part A: 21 scenarios = 7 key/value alphabets (plain keys with shared prefixes incl. the empty key and a 32-byte key; secure keys; values of 1, 28, 29, 31, 32, 100 bytes and empty) x cache-generation limit {0, 1, 120}; events TryUpdate, TryDelete, TryGet, Hash, Trie.Commit, durable commit, reopen on the same / a fresh TrieDatabase / the previous durable root; after every history: reads equal the model, Hash equals the root of a fresh trie built from the model in sorted order, a reopened trie has the committed content, VerifyProof over the committed node set returns exactly the model's value for present keys, nothing for absent keys, and fails when any node on the path is altered or removed. Part A2: four large histories (1500 / 6000 keys) reaching TrieDatabase.Commit's intermediate batch flush. Part B: common/merkle over every leaf list in the stated families, every position, every single-byte alteration of leaf, siblings and root, dropped and side-swapped path entries.",
+         "trie.Prove is commented out in this tree: proofs are assembled by the harness from the committed nodes; keccak256 collision free on the enumerated inputs; Merkle leaves are hashes (the tree has no leaf / inner domain separation).",
+         "DESIGN.md section 4 C17"),
 }
 
 NOT_YET = "check not built yet in this round (design in DESIGN.md section 4); no technique switch intended"
